@@ -5,6 +5,7 @@ import XV.Lemmas.UndoFee
 import XV.Lemmas.UndoBlock
 import XV.Lemmas.UndoWalk
 import XV.Lemmas.RefinePlay
+import XV.Lemmas.RefineReplay
 /-!
 C01 — the state at a block is a pure function of its chain: undoing exactly cancels playing.
 
@@ -2405,6 +2406,66 @@ theorem accepted_block_replayable_refuted : ¬ accepted_block_replayable_stateme
     (frozenInv_of_rows _ _ (by decide)) (by decide) (by decide) (by decide)
   revert this
   decide
+
+private theorem play_ok_nodup (e : Env) (s : St) (lh : Int) (b : Block) (hok : (play e s lh b).2 = .ok) :
+    blockHasDupInput e b.txs = false := by
+  unfold play at hok
+  by_cases h1 : b.pre ≠ some s.pointer
+  · rw [if_pos h1] at hok; cases hok
+  · rw [if_neg h1] at hok
+    by_cases h2 : blockHasDupInput e b.txs = true
+    · rw [if_pos h2] at hok; cases hok
+    · simpa using h2
+
+/-- the one test `play` does not make: no pending member of the block reads, without writing it, a key that an earlier
+transaction of the block writes -/
+def NoStaleMember (e : Env) (pool : List Nat) (b : Block) : Prop :=
+  ∀ i ∈ b.txs, ∀ a ∈ b.txs, [i, a].Sublist b.txs → a ∈ pool → ∀ pk ∈ (e.tx a).kin,
+    (∀ ko ∈ (e.tx a).kout, ko.key ≠ pk.key) → ∀ ko ∈ (e.tx i).kout, ko.key ≠ pk.key
+
+instance (e : Env) (pool : List Nat) (b : Block) : Decidable (NoStaleMember e pool b) := by
+  unfold NoStaleMember; exact inferInstance
+
+/-- **the partial version: with `NoStaleMember`, an accepted block IS replayable.** Under the hypotheses of
+`accepted_block_replayable_statement` and the missing one, a fresh replica at `R` applies every transaction of the
+block in block order — at a ledger height that is high enough for the frozen outputs the pending members spent
+(admission is monotone in the ledger height; the pending members were admitted at the heights of their submission). The
+witness of the refutation violates exactly `NoStaleMember`. -/
+theorem accepted_block_replayable_partial (e : Env) (s : St) (lh : Int) (b : Block) (R : St)
+    (hinv : KVInv e R) (hpool : PoolValid e s.pool R) (hnd : s.pool.Nodup)
+    (hs : TRefines s (applyPool e s.pool R))
+    (hfreshU : ∀ i ∈ s.pool ++ b.txs, ∀ o, lookup R.U (i, o) = none)
+    (hfreshV : ∀ i ∈ s.pool ++ b.txs, ∀ k o, curVer R k ≠ some (i, o))
+    (hfz : FrozenInv e R) (hst : ∀ i ∈ s.pool ++ b.txs, StaticFrozen e i ∧ TxWF e i) (hndB : b.txs.Nodup)
+    (hok : (play e s lh b).2 = .ok) (hro : NoStaleMember e s.pool b) :
+    ∃ lh', (todoBlock e R lh' b).isSome = true := by
+  have hP := (poolValid_iff e _ _).mp hpool
+  have hwP := hP.wf
+  obtain ⟨tE, pK, pEv⟩ := play_evict_form e s b R hP hnd (fun i hi => hfreshU i (List.mem_append_left _ hi)) hfz
+    (fun i hi => (hst i (List.mem_append_left _ hi)).1)
+  have hKV : KVInv e (applyPool e (s.pool.filter (fun i => !(playEvict e s b).contains i)) R) :=
+    applyPool_KVInv e _ _ (fun i hi => (hwP i (List.mem_filter.mp hi).1).id) hinv
+  have hs1 : TRefines (playUndone e s b)
+      (applyPool e (s.pool.filter (fun i => !(playEvict e s b).contains i)) R) := by
+    rw [playUndone_eq]
+    exact rollback_applyPool e _ _ ((poolValid_iff e _ _).mpr pEv) hKV s (hs.trans tE.trefines)
+  have hv := play_replayable_form e s lh b R hok hP hnd pK hs1
+    (fun i hi => (txWF_iff e i).mp (hst i (List.mem_append_right _ hi)).2) hndB hfreshU hfreshV
+    (fun i a hia haP => hro i (hia.subset (by simp)) a (hia.subset (by simp)) hia haP)
+  obtain ⟨lh', s2, hfwd⟩ := applyBlockTxs_of_pValid e b.prop b.txs R hv
+  refine ⟨lh', ?_⟩
+  unfold todoBlock
+  rw [play_ok_nodup e s lh b hok, hfwd]
+  rfl
+
+-- non-vacuity: the accepted block of the `play_refines` example (a pending member that writes the key it reads, a new
+-- transaction, two evictions) satisfies `NoStaleMember` and is replayable; the witness of the refutation violates it
+example : NoStaleMember prEnv prS.pool (prEnv.block 2) ∧ (play prEnv prS 0 (prEnv.block 2)).2 = .ok ∧
+    (todoBlock prEnv (canon prEnv prG 1) 0 (prEnv.block 2)).isSome = true ∧
+    ¬ NoStaleMember arEnv arS.pool (arEnv.block 2) := by decide
+example : ∀ i ∈ prS.pool ++ (prEnv.block 2).txs, StaticFrozen prEnv i ∧ TxWF prEnv i := by decide
+example : ∀ i ∈ prS.pool ++ (prEnv.block 2).txs, ∀ o, lookup (canon prEnv prG 1).U (i, o) = none :=
+  fun i hi => absent_of_rows _ i (by revert i hi; decide)
 
 -- ================================================================== walking away and back
 
